@@ -33,20 +33,21 @@ package packets
 //@ inline EncodeUint16
 
 //@ func (*Header).SetVarPartLength
-//@   nopanic [C21]
+//@   nopanic [C21,C23]
 //@   assigns h.pktLength
-//@   ensures [C21] short: length <= 253 ==> h.pktLength == length + 2
-//@   ensures [C21] long: length >= 254 && length <= 65531 ==> h.pktLength == length + 4
+//@   ensures [C21,C23] short: length <= 253 ==> h.pktLength == length + 2
+//@   ensures [C21,C23] long: length >= 254 && length <= 65531 ==> h.pktLength == length + 4
 
 //@ func (*Header).Unpack
 //@   ensures [C21] accepts: len(buf) >= 2 && (buf[0] != 1 || (len(buf) >= 4 && be16(buf, 1) > 255)) ==> result == nil
 
 //@ func EncodeShortTopic
 //@   nopanic [C21]
-//@   ensures [C21] two: len(topic) == 2 ==> result == (uint16(topic[0]) << 8) | uint16(topic[1])
+//@   ensures [C21,C02] two: len(topic) == 2 ==> result == (uint16(topic[0]) << 8) | uint16(topic[1])
 //@ func DecodeShortTopic
 //@   nopanic [C21]
-//@   ensures [C21] name: len(result) == 2 && result[0] == uint8(topicAlias >> 8) && result[1] == uint8(topicAlias)
+// (the gateway properties that translate short topic IDs rest on this clause: C01 PUBLISH, C03 SUBSCRIBE/UNSUBSCRIBE)
+//@   ensures [C21,C01,C03] name: len(result) == 2 && result[0] == uint8(topicAlias >> 8) && result[1] == uint8(topicAlias)
 
 // short-topic bijection (ghost lemma functions in zz_lemmas_verif.go)
 //@ func lemmaShortTopicIDRoundtrip
